@@ -14,14 +14,16 @@ EXTENDS Paging, TLC, Json
 CONSTANTS AllVariants,   \* TRUE: every single-iteration scenario x every variant; FALSE: one variant each, rotating
           MultiEvery,    \* one scenario in MultiEvery is also run with re-execution plans ...
           MultiPlans,    \* ... this many of them (rotating through PlanSeq)
-          OptEvery       \* one single-iteration scenario in OptEvery is also run with an execution option set
+          OptEvery,      \* one single-iteration scenario in OptEvery is also run with an execution option set
+          ConcEvery,     \* one multi-request scenario in ConcEvery is also run by Conc goroutines at once, all
+          Conc           \* iterating the SAME prepared statement, each with its own bound key
 
 VARIABLE variant
 
 Preps == <<"query", "exec0", "exec2">>
 \* rebind: the caller calls q.Bind(values...) (and PageState(s) again in manual mode) before executions 2, 3
-Variants == {[prep |-> Preps[i], skip |-> k, rebind |-> 0, opt |-> "none"] : i \in 1 .. 3, k \in {0, 1}}
-VariantNo(i) == [prep |-> Preps[(i % 3) + 1], skip |-> (i \div 3) % 2, rebind |-> 0, opt |-> "none"]
+Variants == {[prep |-> Preps[i], skip |-> k, rebind |-> 0, opt |-> "none", conc |-> 1] : i \in 1 .. 3, k \in {0, 1}}
+VariantNo(i) == [prep |-> Preps[(i % 3) + 1], skip |-> (i \div 3) % 2, rebind |-> 0, opt |-> "none", conc |-> 1]
 
 \* Execution options of the Query. None of them changes what the property demands of the iteration:
 \* a serial consistency, speculative execution armed (idempotent query), a retry policy, WithContext (cancelled
@@ -51,6 +53,11 @@ VariantsFor(sc) ==
   THEN (IF AllVariants THEN Variants ELSE {VariantNo(Rot(sc))}) \cup
        (IF Rot3(sc) % OptEvery = 0
         THEN {[VariantNo(Rot2(sc) \div 2) EXCEPT !.opt = Opts[((Rot3(sc) \div OptEvery) % Len(Opts)) + 1]]}
+        ELSE {}) \cup
+       \* concurrent iterations of one prepared statement (told apart by the bound key: EXECUTE with values), results
+       \* with a page that announces a successor, metadata skipped or not
+       (IF (Len(sc.pages) > 1 \/ sc.mode = "manual") /\ Rot3(sc) % ConcEvery = 1 % ConcEvery
+        THEN {[prep |-> "exec2", skip |-> IF Rot2(sc) % 4 = 0 THEN 0 ELSE 1, rebind |-> 0, opt |-> "none", conc |-> Conc]}
         ELSE {})
   ELSE IF Rot2(sc) % MultiEvery = 0
             /\ \E j \in 0 .. MultiPlans - 1 : sc.plan = PlanSeq[((Rot2(sc) \div MultiEvery + j * 3) % Len(PlanSeq)) + 1]
@@ -68,7 +75,7 @@ Emit ==
   PrintT(<<"CASE", ToJson(
     [pages |-> scen.pages, q |-> scen.q, kind |-> scen.kind, fail |-> scen.fail, mode |-> scen.mode,
      start |-> scen.start, plan |-> scen.plan, prep |-> variant.prep, skip |-> variant.skip,
-     rebind |-> variant.rebind, opt |-> variant.opt, size |-> SizeOf(scen),
+     rebind |-> variant.rebind, opt |-> variant.opt, conc |-> variant.conc, size |-> SizeOf(scen),
      exp |-> [reqs |-> ExpReqs(scen), rows |-> ExpRows(scen), delivered |-> ExpDelivered(scen),
               ended |-> ExpEnd(scen), err |-> ExpErr(scen), exposed |-> ExpExposed(scen),
               execs |-> [e \in 1 .. Len(scen.plan) |->
